@@ -32,6 +32,7 @@ type rFile struct {
 	Budget     int          `json:"budget_ms"`
 	Random     int          `json:"random_tries"`
 	Class      string       `json:"class"`
+	Shapes     map[string]int `json:"shapes"`
 }
 
 func hexOf(lit string) string {
@@ -268,7 +269,7 @@ func genReplayTest(p *Loaded, h *ssa.Function) (dir string, err error) {
 
 // replayObligation tries to exhibit the failure on the real code.
 func replayObligation(p *Loaded, o *Obligation, r *TargetResult, h *ssa.Function, smtDir, scratch string, seed int) (confirmed bool, detail map[string]interface{}, raw string) {
-	rf := rFile{Obligation: o.Name, Budget: 5000, Random: 3000, Class: o.Class}
+	rf := rFile{Obligation: o.Name, Budget: 5000, Random: 3000, Class: o.Class, Shapes: r.Exec.shapeLen}
 	if c := modelCandidate(o, r, smtDir); c != nil {
 		rf.Candidates = append(rf.Candidates, *c)
 	}
